@@ -1,14 +1,18 @@
 // Lemmas behind the exit proofs of the filter.rs handlers (each says: this concrete change of the bookkeeping is a correct step).
-pub proof fn lemma_push_back<T, U>(ix0: Seq<usize>, ix1: Seq<usize>, res: Option<VectorDiff<U>>, orig: Seq<T>, fs: spec_fn(T) -> Option<U>, value: T)
+pub proof fn lemma_push_back<T, U>(ix0: Seq<usize>, ix1: Seq<usize>, orig: Seq<T>, fs: spec_fn(T) -> Option<U>, value: T)
     requires
         finv(ix0, orig.len() as usize, orig, fs),
         orig.len() + 1 < usize::MAX,
         match fs(value) {
-            Some(u) => ix1 == ix0.push(orig.len() as usize) && res == Some(VectorDiff::PushBack { value: u }),
-            None => ix1 == ix0 && res is None,
+            Some(u) => ix1 == ix0.push(orig.len() as usize),
+            None => ix1 == ix0,
         },
     ensures
-        fstep(ix0, ix1, (orig.len() + 1) as usize, res, orig, orig.push(value), fs),
+        finv(ix1, (orig.len() + 1) as usize, orig.push(value), fs),
+        match fs(value) {
+            Some(u) => view_of(ix1, orig.push(value), fs) == view_of(ix0, orig, fs).push(u),
+            None => view_of(ix1, orig.push(value), fs) == view_of(ix0, orig, fs),
+        },
 {
     let orig1 = orig.push(value);
     assert forall|p: int| 0 <= p < orig1.len() && fs(#[trigger] orig1[p]) is Some implies exists|i: int| 0 <= i < ix1.len() && #[trigger] ix1[i] == p by {
@@ -40,16 +44,20 @@ pub proof fn lemma_clear<T, U>(ix0: Seq<usize>, ix1: Seq<usize>, orig: Seq<T>, f
 }
 
 #[verifier::rlimit(80)]
-pub proof fn lemma_push_front<T, U>(ix0: Seq<usize>, ix1: Seq<usize>, res: Option<VectorDiff<U>>, orig: Seq<T>, fs: spec_fn(T) -> Option<U>, value: T)
+pub proof fn lemma_push_front<T, U>(ix0: Seq<usize>, ix1: Seq<usize>, orig: Seq<T>, fs: spec_fn(T) -> Option<U>, value: T)
     requires
         finv(ix0, orig.len() as usize, orig, fs),
         orig.len() + 1 < usize::MAX,
         match fs(value) {
-            Some(u) => ix1 =~= seq![0usize] + shifted(ix0, 0, ix0.len() as int, 1) && res == Some(VectorDiff::PushFront { value: u }),
-            None => ix1 =~= shifted(ix0, 0, ix0.len() as int, 1) && res is None,
+            Some(u) => ix1 =~= seq![0usize] + shifted(ix0, 0, ix0.len() as int, 1),
+            None => ix1 =~= shifted(ix0, 0, ix0.len() as int, 1),
         },
     ensures
-        fstep(ix0, ix1, (orig.len() + 1) as usize, res, orig, seq![value] + orig, fs),
+        finv(ix1, (orig.len() + 1) as usize, seq![value] + orig, fs),
+        match fs(value) {
+            Some(u) => view_of(ix1, seq![value] + orig, fs) == seq![u] + view_of(ix0, orig, fs),
+            None => view_of(ix1, seq![value] + orig, fs) == view_of(ix0, orig, fs),
+        },
 {
     let orig1 = seq![value] + orig;
     let off: int = if fs(value) is Some { 1 } else { 0 };
@@ -163,18 +171,23 @@ proof fn lemma_insert_view<T, U>(ix0: Seq<usize>, ix1: Seq<usize>, orig: Seq<T>,
         }
     }
 }
-pub proof fn lemma_insert<T, U>(ix0: Seq<usize>, ix1: Seq<usize>, res: Option<VectorDiff<U>>, orig: Seq<T>, fs: spec_fn(T) -> Option<U>, index: usize, value: T, upos: usize)
+pub proof fn lemma_insert<T, U>(ix0: Seq<usize>, ix1: Seq<usize>, orig: Seq<T>, fs: spec_fn(T) -> Option<U>, index: usize, value: T, upos: usize)
     requires
         finv(ix0, orig.len() as usize, orig, fs),
         orig.len() + 1 < usize::MAX,
         index <= orig.len(),
         is_pos(ix0, index, upos as int),
         match fs(value) {
-            Some(u) => ix1 =~= shifted(ix0, upos as int, ix0.len() as int, 1).insert(upos as int, index) && res == Some(VectorDiff::Insert { index: upos, value: u }),
-            None => ix1 =~= shifted(ix0, upos as int, ix0.len() as int, 1) && res is None,
+            Some(u) => ix1 =~= shifted(ix0, upos as int, ix0.len() as int, 1).insert(upos as int, index),
+            None => ix1 =~= shifted(ix0, upos as int, ix0.len() as int, 1),
         },
     ensures
-        fstep(ix0, ix1, (orig.len() + 1) as usize, res, orig, orig.insert(index as int, value), fs),
+        finv(ix1, (orig.len() + 1) as usize, orig.insert(index as int, value), fs),
+        upos <= view_of(ix0, orig, fs).len(),
+        match fs(value) {
+            Some(u) => view_of(ix1, orig.insert(index as int, value), fs) == view_of(ix0, orig, fs).insert(upos as int, u),
+            None => view_of(ix1, orig.insert(index as int, value), fs) == view_of(ix0, orig, fs),
+        },
 {
     let pos = upos as int;
     let off: int = if fs(value) is Some { 1 } else { 0 };
@@ -183,10 +196,6 @@ pub proof fn lemma_insert<T, U>(ix0: Seq<usize>, ix1: Seq<usize>, res: Option<Ve
     lemma_insert_view(ix0, ix1, orig, fs, index, value, pos, off);
     let v0 = view_of(ix0, orig, fs);
     assert(v0.len() == ix0.len());
-    match fs(value) {
-        Some(u) => { assert(apply(res.unwrap(), v0) == v0.insert(pos, u)); }
-        None => {}
-    }
 }
 
 // elementwise description of the bookkeeping after the removal of source index `index` (off = 1 when that item was kept)
@@ -247,15 +256,16 @@ proof fn lemma_remove_view<T, U>(ix0: Seq<usize>, ix1: Seq<usize>, orig: Seq<T>,
     }
     assert(w =~= v1);
 }
-pub proof fn lemma_remove<T, U>(ix0: Seq<usize>, ix1: Seq<usize>, res: Option<VectorDiff<U>>, orig: Seq<T>, fs: spec_fn(T) -> Option<U>, index: usize, upos: usize)
+pub proof fn lemma_remove<T, U>(ix0: Seq<usize>, ix1: Seq<usize>, orig: Seq<T>, fs: spec_fn(T) -> Option<U>, index: usize, upos: usize)
     requires
         finv(ix0, orig.len() as usize, orig, fs),
         index < orig.len(),
         is_pos(ix0, index, upos as int),
         ix1 =~= shifted(rm_mid(ix0, upos as int, kept_at(ix0, index, upos as int)), upos as int, ix0.len() as int, -1),
-        res == (if kept_at(ix0, index, upos as int) { Some(VectorDiff::<U>::Remove { index: upos }) } else { None }),
     ensures
-        fstep(ix0, ix1, (orig.len() - 1) as usize, res, orig, orig.remove(index as int), fs),
+        finv(ix1, (orig.len() - 1) as usize, orig.remove(index as int), fs),
+        view_of(ix0, orig, fs).len() == ix0.len(),
+        if kept_at(ix0, index, upos as int) { view_of(ix1, orig.remove(index as int), fs) == view_of(ix0, orig, fs).remove(upos as int) } else { view_of(ix1, orig.remove(index as int), fs) == view_of(ix0, orig, fs) },
 {
     let pos = upos as int;
     let off: int = if kept_at(ix0, index, pos) { 1 } else { 0 };
@@ -263,14 +273,15 @@ pub proof fn lemma_remove<T, U>(ix0: Seq<usize>, ix1: Seq<usize>, res: Option<Ve
     lemma_remove_kept::<T, U>(ix0, ix1, orig, fs, index, pos, off);
     lemma_remove_view::<T, U>(ix0, ix1, orig, fs, index, pos, off);
 }
-pub proof fn lemma_pop_front<T, U>(ix0: Seq<usize>, ix1: Seq<usize>, res: Option<VectorDiff<U>>, orig: Seq<T>, fs: spec_fn(T) -> Option<U>)
+pub proof fn lemma_pop_front<T, U>(ix0: Seq<usize>, ix1: Seq<usize>, orig: Seq<T>, fs: spec_fn(T) -> Option<U>)
     requires
         finv(ix0, orig.len() as usize, orig, fs),
         orig.len() > 0,
         ix1 =~= shifted(rm_mid(ix0, 0, kept_at(ix0, 0, 0)), 0, ix0.len() as int, -1),
-        res == (if kept_at(ix0, 0, 0) { Some(VectorDiff::<U>::PopFront) } else { None }),
     ensures
-        fstep(ix0, ix1, (orig.len() - 1) as usize, res, orig, orig.subrange(1, orig.len() as int), fs),
+        finv(ix1, (orig.len() - 1) as usize, orig.subrange(1, orig.len() as int), fs),
+        view_of(ix0, orig, fs).len() == ix0.len(),
+        if kept_at(ix0, 0, 0) { view_of(ix1, orig.subrange(1, orig.len() as int), fs) == view_of(ix0, orig, fs).subrange(1, ix0.len() as int) } else { view_of(ix1, orig.subrange(1, orig.len() as int), fs) == view_of(ix0, orig, fs) },
 {
     let off: int = if kept_at(ix0, 0, 0) { 1 } else { 0 };
     assert(is_pos(ix0, 0, 0));
@@ -281,14 +292,15 @@ pub proof fn lemma_pop_front<T, U>(ix0: Seq<usize>, ix1: Seq<usize>, res: Option
     let v0 = view_of(ix0, orig, fs);
     assert(v0.subrange(1, v0.len() as int) =~= v0.remove(0));
 }
-pub proof fn lemma_pop_back<T, U>(ix0: Seq<usize>, ix1: Seq<usize>, res: Option<VectorDiff<U>>, orig: Seq<T>, fs: spec_fn(T) -> Option<U>)
+pub proof fn lemma_pop_back<T, U>(ix0: Seq<usize>, ix1: Seq<usize>, orig: Seq<T>, fs: spec_fn(T) -> Option<U>)
     requires
         finv(ix0, orig.len() as usize, orig, fs),
         orig.len() > 0,
         ix1 =~= rm_mid(ix0, ix0.len() - 1, kept_at(ix0, (orig.len() - 1) as usize, ix0.len() - 1)),
-        res == (if kept_at(ix0, (orig.len() - 1) as usize, ix0.len() - 1) { Some(VectorDiff::<U>::PopBack) } else { None }),
     ensures
-        fstep(ix0, ix1, (orig.len() - 1) as usize, res, orig, orig.subrange(0, orig.len() - 1), fs),
+        finv(ix1, (orig.len() - 1) as usize, orig.subrange(0, orig.len() - 1), fs),
+        view_of(ix0, orig, fs).len() == ix0.len(),
+        if kept_at(ix0, (orig.len() - 1) as usize, ix0.len() - 1) { view_of(ix1, orig.subrange(0, orig.len() - 1), fs) == view_of(ix0, orig, fs).subrange(0, ix0.len() - 1) } else { view_of(ix1, orig.subrange(0, orig.len() - 1), fs) == view_of(ix0, orig, fs) },
 {
     let index = (orig.len() - 1) as usize;
     let kept = kept_at(ix0, index, ix0.len() - 1);
@@ -428,19 +440,24 @@ proof fn lemma_set_add_view<T, U>(ix0: Seq<usize>, ix1: Seq<usize>, orig: Seq<T>
     }
     assert(v0.insert(pos, u) =~= v1);
 }
-pub proof fn lemma_set<T, U>(ix0: Seq<usize>, ix1: Seq<usize>, res: Option<VectorDiff<U>>, orig: Seq<T>, fs: spec_fn(T) -> Option<U>, index: usize, value: T, upos: usize)
+pub proof fn lemma_set<T, U>(ix0: Seq<usize>, ix1: Seq<usize>, orig: Seq<T>, fs: spec_fn(T) -> Option<U>, index: usize, value: T, upos: usize)
     requires
         finv(ix0, orig.len() as usize, orig, fs),
         index < orig.len(),
         is_pos(ix0, index, upos as int),
         match fs(value) {
-            Some(u) => if kept_at(ix0, index, upos as int) { ix1 =~= ix0 && res == Some(VectorDiff::Set { index: upos, value: u }) }
-                       else { ix1 =~= ix0.insert(upos as int, index) && res == Some(VectorDiff::Insert { index: upos, value: u }) },
-            None => if kept_at(ix0, index, upos as int) { ix1 =~= ix0.remove(upos as int) && res == Some(VectorDiff::<U>::Remove { index: upos }) }
-                    else { ix1 =~= ix0 && res is None },
+            Some(u) => if kept_at(ix0, index, upos as int) { ix1 =~= ix0 } else { ix1 =~= ix0.insert(upos as int, index) },
+            None => if kept_at(ix0, index, upos as int) { ix1 =~= ix0.remove(upos as int) } else { ix1 =~= ix0 },
         },
     ensures
-        fstep(ix0, ix1, orig.len() as usize, res, orig, orig.update(index as int, value), fs),
+        finv(ix1, orig.len() as usize, orig.update(index as int, value), fs),
+        view_of(ix0, orig, fs).len() == ix0.len(),
+        match fs(value) {
+            Some(u) => if kept_at(ix0, index, upos as int) { view_of(ix1, orig.update(index as int, value), fs) == view_of(ix0, orig, fs).update(upos as int, u) }
+                       else { view_of(ix1, orig.update(index as int, value), fs) == view_of(ix0, orig, fs).insert(upos as int, u) },
+            None => if kept_at(ix0, index, upos as int) { view_of(ix1, orig.update(index as int, value), fs) == view_of(ix0, orig, fs).remove(upos as int) }
+                    else { view_of(ix1, orig.update(index as int, value), fs) == view_of(ix0, orig, fs) },
+        },
 {
     let pos = upos as int;
     let was = kept_at(ix0, index, pos);
@@ -454,14 +471,17 @@ pub proof fn lemma_set<T, U>(ix0: Seq<usize>, ix1: Seq<usize>, res: Option<Vecto
     }
 }
 #[verifier::rlimit(80)]
-pub proof fn lemma_truncate<T, U>(ix0: Seq<usize>, ix1: Seq<usize>, res: Option<VectorDiff<U>>, orig: Seq<T>, fs: spec_fn(T) -> Option<U>, len: usize, n: usize)
+pub proof fn lemma_truncate<T, U>(ix0: Seq<usize>, ix1: Seq<usize>, orig: Seq<T>, fs: spec_fn(T) -> Option<U>, len: usize, n: usize)
     requires
         finv(ix0, orig.len() as usize, orig, fs),
         len <= orig.len(),
         n <= ix0.len(), forall|i: int| 0 <= i < n ==> (#[trigger] ix0[i]) < len, n < ix0.len() ==> ix0[n as int] >= len,
-        if n < ix0.len() { ix1 =~= ix0.subrange(0, n as int) && res == Some(VectorDiff::<U>::Truncate { length: n }) } else { ix1 =~= ix0 && res is None },
+        ix1 =~= ix0.subrange(0, n as int),
     ensures
-        fstep(ix0, ix1, len, res, orig, if len < orig.len() { orig.subrange(0, len as int) } else { orig }, fs),
+        finv(ix1, len, if len < orig.len() { orig.subrange(0, len as int) } else { orig }, fs),
+        view_of(ix0, orig, fs).len() == ix0.len(),
+        view_of(ix1, if len < orig.len() { orig.subrange(0, len as int) } else { orig }, fs) == view_of(ix0, orig, fs).subrange(0, n as int),
+        n == ix0.len() ==> view_of(ix1, if len < orig.len() { orig.subrange(0, len as int) } else { orig }, fs) == view_of(ix0, orig, fs),
 {
     let orig1 = if len < orig.len() { orig.subrange(0, len as int) } else { orig };
     assert(orig1 =~= orig.subrange(0, len as int));
@@ -580,9 +600,8 @@ pub proof fn lemma_append_steps<T, U>(ix0: Seq<usize>, ix1: Seq<usize>, orig: Se
         let value = values.last();
         assert(o1.push(value) =~= orig + values);
         assert(mask.last() == (fs(values[values.len() - 1]) is Some));
-        let res: Option<VectorDiff<U>> = match fs(value) { Some(u) => Some(VectorDiff::PushBack { value: u }), None => None };
         if mask.last() { assert(ix1 =~= ixm.push(o1.len() as usize)); } else { assert(ix1 =~= ixm); }
-        lemma_push_back(ixm, ix1, res, o1, fs, value);
+        lemma_push_back(ixm, ix1, o1, fs, value);
         match fs(value) {
             Some(u) => { assert(view_of(ix0, orig, fs) + fmap(values, fs) =~= (view_of(ix0, orig, fs) + fmap(v1, fs)).push(u)); }
             None => {}
